@@ -1261,6 +1261,17 @@ pub fn mutate(
             }
             _ => {}
         }
+        if spec.op == 2003 && tag.kind == Kind::BlockFilterCheckPoints {
+            if let Some((m1, m2)) = overlong_check_points(sim, data, &mut rng) {
+                let mut t1 = t.clone();
+                t1.note = "check points continued with made-up values beyond the proven tip".into();
+                out.push((proto, m1, t1));
+                t.note = "unasked continuation that starts beyond the proven tip".into();
+                out.push((proto, m2, t));
+                sim.stat("fault.byz.overlong_check_points");
+                continue;
+            }
+        }
         let bytes: Option<(Bytes, String)> = match tag.kind {
             _ if spec.op == 2000 => overflow_attack(data, &mut rng),
             _ if spec.op == 2001 => cbmt_attack(data, &mut rng),
@@ -1912,4 +1923,41 @@ fn cbmt_attack(data: &Bytes, rng: &mut Rng) -> Option<(Bytes, String)> {
         lc_msg(e.as_builder().filtered_blocks(fbs).build())
     };
     Some((out.as_bytes(), "positions of a transactions merkle proof at the boundary".to_string()))
+}
+
+/// The honest check-points answer extended by made-up values for several intervals beyond the
+/// peer's tip, and the continuation that starts where the client - which keeps all but the last
+/// value of an answer that overshoots - now expects the next one: beyond the proven tip.
+fn overlong_check_points(sim: &Sim, data: &Bytes, rng: &mut Rng) -> Option<(Bytes, Bytes)> {
+    let m = packed::BlockFilterMessageReader::from_slice(data).ok()?;
+    let r = match m.to_enum() {
+        packed::BlockFilterMessageUnionReader::BlockFilterCheckPoints(r) => r.to_entity(),
+        _ => return None,
+    };
+    let interval = sim.plan.knobs.check_point_interval;
+    let start: u64 = r.start_number().unpack();
+    let mut hashes: Vec<Byte32> = r.block_filter_hashes().into_iter().collect();
+    if hashes.is_empty() {
+        return None;
+    }
+    let extra = rng.range(3, 6) as usize;
+    hashes.extend(random_hashes(rng, extra));
+    let kept_last = hashes.len() - 2;
+    let start2 = start + interval * kept_last as u64;
+    let mut cont = vec![hashes[kept_last].clone()];
+    let n2 = rng.range(1, 4) as usize;
+    cont.extend(random_hashes(rng, n2));
+    let m1 = server::filter_msg(
+        packed::BlockFilterCheckPoints::new_builder()
+            .start_number(start.pack())
+            .block_filter_hashes(hashes.pack())
+            .build(),
+    );
+    let m2 = server::filter_msg(
+        packed::BlockFilterCheckPoints::new_builder()
+            .start_number(start2.pack())
+            .block_filter_hashes(cont.pack())
+            .build(),
+    );
+    Some((m1.as_bytes(), m2.as_bytes()))
 }
